@@ -601,10 +601,21 @@ fn step_clauses(prev: &Value, next: &Value, entry: &Value, world: &Value) -> Vec
 struct Gen {
     rng: fastrand::Rng,
     authors: Vec<String>,
-    ndocs: usize,
+    docs: Vec<Vec<String>>,
 }
 
 impl Gen {
+    /// Delegates of the current document of the (last observed) real state.
+    fn delegates(&self, state: &Value) -> Vec<String> {
+        let cur = state["current"].as_i64().unwrap_or(0);
+        state["revs"]
+            .as_array()
+            .and_then(|a| a.iter().find(|r| r["id"] == cur))
+            .and_then(|r| r["doc"].as_u64())
+            .and_then(|d| self.docs.get(d as usize - 1).cloned())
+            .unwrap_or_default()
+    }
+
     fn action(&mut self, state: &Value, upto: usize) -> Value {
         let revs: Vec<&Value> = state["revs"].as_array().map(|a| a.iter().collect()).unwrap_or_default();
         let active: Vec<u64> = revs.iter().filter(|r| r["state"] == "active").map(|r| r["id"].as_u64().unwrap()).collect();
@@ -612,30 +623,31 @@ impl Gen {
         let cur = state["current"].as_u64().unwrap_or(0);
         let pick_target = |rng: &mut fastrand::Rng| -> u64 {
             let x = rng.u8(0..100);
-            if x < 60 && !active.is_empty() {
+            if x < 70 && !active.is_empty() {
                 active[rng.usize(0..active.len())]
-            } else if x < 92 && !any.is_empty() {
+            } else if x < 94 && !any.is_empty() {
                 any[rng.usize(0..any.len())]
-            } else if x < 96 {
+            } else if x < 97 {
                 NOREV
             } else {
                 rng.u64(0..=upto as u64) // possibly a change that is not a revision
             }
         };
-        let x = self.rng.u8(0..100);
-        if x < 30 {
+        let x = self.rng.u32(0..100);
+        let propose: u32 = if active.is_empty() { 70 } else { 25 };
+        if x < propose {
             let p = match self.rng.u8(0..100) {
-                0..=74 => cur,
-                75..=89 => pick_target(&mut self.rng),
-                90..=94 => NOPARENT,
+                0..=84 => cur,
+                85..=94 => pick_target(&mut self.rng),
+                95..=97 => NOPARENT,
                 _ => NOREV,
             };
-            json!({"t": "revision", "rev": p, "doc": self.rng.usize(1..=self.ndocs), "sig": self.rng.u8(0..100) < 88})
-        } else if x < 65 {
-            json!({"t": "accept", "rev": pick_target(&mut self.rng), "doc": 0, "sig": self.rng.u8(0..100) < 80})
-        } else if x < 80 {
+            json!({"t": "revision", "rev": p, "doc": self.rng.usize(1..=self.docs.len()), "sig": self.rng.u8(0..100) < 90})
+        } else if x < propose + (100 - propose) * 55 / 100 {
+            json!({"t": "accept", "rev": pick_target(&mut self.rng), "doc": 0, "sig": self.rng.u8(0..100) < 75})
+        } else if x < propose + (100 - propose) * 75 / 100 {
             json!({"t": "reject", "rev": pick_target(&mut self.rng), "doc": 0, "sig": true})
-        } else if x < 90 {
+        } else if x < propose + (100 - propose) * 88 / 100 {
             json!({"t": "edit", "rev": pick_target(&mut self.rng), "doc": 0, "sig": true})
         } else {
             json!({"t": "redact", "rev": pick_target(&mut self.rng), "doc": 0, "sig": true})
@@ -643,7 +655,35 @@ impl Gen {
     }
 
     fn op(&mut self, state: &Value, upto: usize) -> Value {
-        let author = self.authors[self.rng.usize(0..self.authors.len())].clone();
+        let dels = self.delegates(state);
+        // often: a delegate that has not voted yet accepts an active revision (drives adoption)
+        if self.rng.u8(0..100) < 45 {
+            let active: Vec<&Value> = state["revs"]
+                .as_array()
+                .map(|a| a.iter().filter(|r| r["state"] == "active").collect())
+                .unwrap_or_default();
+            if !active.is_empty() {
+                let r = active[self.rng.usize(0..active.len())];
+                let voted: Vec<&str> = r["accepts"]
+                    .as_array()
+                    .unwrap()
+                    .iter()
+                    .chain(r["rejects"].as_array().unwrap().iter())
+                    .filter_map(|k| k.as_str())
+                    .collect();
+                let free: Vec<&String> = dels.iter().filter(|d| !voted.contains(&d.as_str())).collect();
+                if !free.is_empty() {
+                    let author = free[self.rng.usize(0..free.len())].clone();
+                    let sig = self.rng.u8(0..100) < 85;
+                    return json!({"author": author, "acts": [{"t": "accept", "rev": r["id"], "doc": 0, "sig": sig}]});
+                }
+            }
+        }
+        let author = if !dels.is_empty() && self.rng.u8(0..100) < 85 {
+            dels[self.rng.usize(0..dels.len())].clone()
+        } else {
+            self.authors[self.rng.usize(0..self.authors.len())].clone()
+        };
         let n = if self.rng.u8(0..100) < 80 { 1 } else { 2 };
         let mut acts: Vec<Value> = Vec::new();
         for _ in 0..n {
@@ -663,13 +703,21 @@ fn record(world: &Value, n: usize, maxops: usize, out: &mut Out, dir: &Path) -> 
     let mut g = Gen {
         rng: fastrand::Rng::with_seed(seed()),
         authors: world["authors"].as_array().unwrap().iter().map(|k| k.as_str().unwrap().to_string()).collect(),
-        ndocs: world["docs"].as_array().unwrap().len(),
+        docs: world["docs"]
+            .as_array()
+            .unwrap()
+            .iter()
+            .map(|d| d.as_array().unwrap().iter().map(|k| k.as_str().unwrap().to_string()).collect())
+            .collect(),
     };
     let mut crashes = 0usize;
     let mut total_ops = 0usize;
+    let (mut commits, mut evals) = (0usize, 0usize);
     for h in 0..n {
         // a fresh world now and then keeps the repository small
         if h > 0 && h % 200 == 0 {
+            commits += w.commits;
+            evals += w.evals;
             w = World::new(dir, world);
         }
         out.emit(&json!({"ev": "reset"}));
@@ -691,12 +739,17 @@ fn record(world: &Value, n: usize, maxops: usize, out: &mut Out, dir: &Path) -> 
         let mut x_left = 0usize;
         let mut y_left = 0usize;
         let mut broken = false;
-        while log.len() < target_len && !broken {
+        let mut skipped = 0usize;
+        while log.len() < target_len && !broken && skipped < 1 {
             let i = log.len() + 1;
+            if phase == "lin" && chain_tip != alive_tip {
+                skipped += 1;
+            }
             let op = g.op(&state, log.len());
             let (step, par): (&str, Vec<usize>) = match phase {
                 "lin" => {
-                    if target_len - log.len() >= 3 && g.rng.u8(0..100) < 25 {
+                    // (no fork below a pruned change: the chain only collects skipped changes)
+                    if chain_tip == alive_tip && target_len - log.len() >= 3 && g.rng.u8(0..100) < 25 {
                         phase = "x";
                         fork_pt = alive_tip;
                         chain_tip = alive_tip;
@@ -722,7 +775,8 @@ fn record(world: &Value, n: usize, maxops: usize, out: &mut Out, dir: &Path) -> 
                         ("y", vec![chain_tip])
                     } else {
                         // join on the surviving tips (needs a survivor in Y), else keep extending Y
-                        let y_alive = alive_tip != fork_pt && alive_tip > x_alive_tip.max(fork_pt);
+                        // (the tip of Y must have survived, see Join in Identity.tla)
+                        let y_alive = alive_tip != fork_pt && alive_tip == chain_tip;
                         if y_alive {
                             phase = "lin";
                             let mut p = vec![alive_tip];
@@ -740,7 +794,7 @@ fn record(world: &Value, n: usize, maxops: usize, out: &mut Out, dir: &Path) -> 
             chain_tip = i;
             total_ops += 1;
             let complete = phase != "x";
-            let mut obs = Value::Null;
+            let mut obs = json!({"has": false});
             if complete {
                 let oids = w.materialise(&log, init);
                 w.set_tips(&log, &oids, log.len());
@@ -758,10 +812,11 @@ fn record(world: &Value, n: usize, maxops: usize, out: &mut Out, dir: &Path) -> 
                         }
                         state = v.clone();
                         obs = v;
+                        obs["has"] = json!(true);
                     }
                     Err(e) => {
                         crashes += 1;
-                        obs = json!({"crash": e});
+                        obs = json!({"has": false, "crash": e});
                         broken = true;
                     }
                 }
@@ -777,21 +832,26 @@ fn record(world: &Value, n: usize, maxops: usize, out: &mut Out, dir: &Path) -> 
             let oids = w.materialise(&log, init);
             w.set_tips(&log, &oids, log.len());
             let obs = match w.evaluate(&oids, log.len(), init) {
-                Ok(v) => v,
+                Ok(mut v) => {
+                    v["has"] = json!(true);
+                    v
+                }
                 Err(e) => {
                     crashes += 1;
-                    json!({"crash": e})
+                    json!({"has": false, "crash": e})
                 }
             };
             out.emit(&json!({"ev": "op", "op": log[i - 1]["op"], "step": "forky", "par": log[i - 1]["par"], "obs": obs}));
         }
     }
-    json!({"histories": n, "ops": total_ops, "crashes": crashes, "commits": w.commits, "evaluations": w.evals})
+    json!({"histories": n, "ops": total_ops, "crashes": crashes, "commits": commits + w.commits, "evaluations": evals + w.evals})
 }
 
 fn main() {
     let args = Args::parse();
-    quiet_panics();
+    if std::env::var("VERIF_DEBUG").is_err() {
+        quiet_panics();
+    }
     let mode = args.req("--mode").to_string();
     let out_path = Path::new(args.req("--out")).to_path_buf();
     let world: Value = serde_json::from_str(args.req("--world")).unwrap_or_else(|e| fatal(&format!("bad --world: {e}")));
